@@ -98,3 +98,61 @@ static inline void h_felock_init(myth_felock_t * f, int with_attr) {
   else myth_felock_init(f, 0);
 }
 static inline void h_uncond_init(myth_uncond_t * u) { H_DIRTY(u); myth_uncond_init(u); }
+
+/* ---- life-cycle epilogues: after the program proper the object is destroyed, initialised again in the same memory (with the other form of
+   the attribute argument), used once more in the simplest way, and destroyed.  "An object that has been destroyed can be initialised
+   again and then behaves like a new one" is part of every primitive's contract and costs a handful of steps per execution. ---- */
+static inline void h_mutex_epilogue(myth_mutex_t * m, int with_attr) {
+  int rc = myth_mutex_destroy(m); MV_CHECK(rc == 0, "myth_mutex_destroy of a free mutex returned %d", rc);
+  h_mutex_init(m, !with_attr);
+  rc = myth_mutex_trylock(m); MV_CHECK(rc == 0, "trylock on a freshly re-initialised mutex returned %d", rc);
+  rc = myth_mutex_trylock(m); MV_CHECK(rc == EBUSY, "trylock on a held mutex returned %d instead of EBUSY", rc);
+  rc = myth_mutex_unlock(m); MV_CHECK(rc == 0, "unlock returned %d", rc);
+  rc = myth_mutex_lock(m); MV_CHECK(rc == 0, "lock on a free mutex returned %d", rc);
+  rc = myth_mutex_unlock(m); MV_CHECK(rc == 0, "unlock returned %d", rc);
+  MV_CHECK(m->state == 0, "mutex state word %ld after lock/unlock on a re-initialised mutex", (long)m->state);
+  rc = myth_mutex_destroy(m); MV_CHECK(rc == 0, "second myth_mutex_destroy returned %d", rc);
+}
+static inline void h_cond_epilogue(myth_cond_t * c, int with_attr) {
+  int rc = myth_cond_destroy(c); MV_CHECK(rc == 0, "myth_cond_destroy without waiters returned %d", rc);
+  h_cond_init(c, !with_attr);
+  rc = myth_cond_signal(c); MV_CHECK(rc == 0, "signal without waiter on a re-initialised condition variable returned %d", rc);
+  rc = myth_cond_broadcast(c); MV_CHECK(rc == 0, "broadcast without waiter returned %d", rc);
+  rc = myth_cond_destroy(c); MV_CHECK(rc == 0, "second myth_cond_destroy returned %d", rc);
+}
+static void * h_bar_partner(void * a) { int s = myth_barrier_wait((myth_barrier_t *)a); return (void *)(long)(s + 10); }
+static inline void h_barrier_epilogue(myth_barrier_t * b, int with_attr) {
+  int rc = myth_barrier_destroy(b); MV_CHECK(rc == 0, "myth_barrier_destroy of an idle barrier returned %d", rc);
+  h_barrier_init(b, !with_attr, 1);                      /* same memory, other participant count */
+  for (int r = 0; r < 2; r++) { rc = myth_barrier_wait(b); MV_CHECK(rc == MYTH_BARRIER_SERIAL_THREAD, "one-participant barrier: wait #%d returned %d", r, rc); }
+  rc = myth_barrier_destroy(b); MV_CHECK(rc == 0, "myth_barrier_destroy returned %d", rc);
+  h_barrier_init(b, with_attr, 2);
+  myth_thread_t t = myth_create(h_bar_partner, b); int s = myth_barrier_wait(b); void * r = 0; myth_join(t, &r);
+  MV_CHECK((s != 0) + ((long)r - 10 != 0) == 1, "two-participant barrier after re-initialisation: serial indicators %d and %ld", s, (long)r - 10);
+  rc = myth_barrier_destroy(b); MV_CHECK(rc == 0, "myth_barrier_destroy returned %d", rc);
+}
+static inline void h_felock_epilogue(myth_felock_t * f, int with_attr) {
+  int rc = myth_felock_destroy(f); MV_CHECK(rc == 0, "myth_felock_destroy returned %d", rc);
+  h_felock_init(f, !with_attr);
+  MV_CHECK(myth_felock_status(f) == 0, "status %d right after re-initialisation", myth_felock_status(f));
+  rc = myth_felock_lock(f); MV_CHECK(rc == 0, "lock returned %d", rc); rc = myth_felock_unlock(f); MV_CHECK(rc == 0, "unlock returned %d", rc);
+  rc = myth_felock_wait_and_lock(f, 0); MV_CHECK(rc == 0, "wait_and_lock(0) on an empty cell returned %d", rc);
+  rc = myth_felock_mark_and_signal(f, 1); MV_CHECK(rc == 0, "mark_and_signal(1) returned %d", rc);
+  MV_CHECK(myth_felock_status(f) == 1, "status %d after mark_and_signal(1)", myth_felock_status(f));
+  rc = myth_felock_wait_and_lock(f, 1); MV_CHECK(rc == 0, "wait_and_lock(1) on a full cell returned %d", rc);
+  rc = myth_felock_mark_and_signal(f, 0); MV_CHECK(rc == 0, "mark_and_signal(0) returned %d", rc);
+  rc = myth_felock_destroy(f); MV_CHECK(rc == 0, "second myth_felock_destroy returned %d", rc);
+}
+static void * h_jc_dec(void * a) { myth_join_counter_dec((myth_join_counter_t *)a); return 0; }
+static inline void h_join_counter_epilogue(myth_join_counter_t * j, int with_attr) {
+  h_join_counter_init(j, !with_attr, 2);                 /* same memory, other count */
+  myth_thread_t t = myth_create(h_jc_dec, j); myth_join_counter_dec(j); myth_join_counter_wait(j); myth_join(t, 0);
+  h_join_counter_init(j, with_attr, 1);
+  myth_join_counter_dec(j); myth_join_counter_wait(j);   /* already reached: must not block */
+}
+static inline void h_uncond_epilogue(myth_uncond_t * u) {
+  int rc = myth_uncond_destroy(u); MV_CHECK(rc == 0, "myth_uncond_destroy returned %d", rc);
+  h_uncond_init(u);
+  MV_CHECK(u->th == 0, "a re-initialised uncondition variable holds a thread");
+  rc = myth_uncond_destroy(u); MV_CHECK(rc == 0, "second myth_uncond_destroy returned %d", rc);
+}
